@@ -76,7 +76,11 @@ func CalleeOf(ci ssa.CallInstruction) Callee {
 		return Callee{Pkg: "builtin", Name: v.Name()}
 	case *ssa.Function:
 		if obj, ok := v.Object().(*types.Func); ok && obj != nil {
-			// instantiated generics: use origin's name
+			// instantiated generics: use origin's name, and the generic body (the instance
+			// referenced from inside another generic body has no blocks and no package)
+			if o := v.Origin(); o != nil && (len(v.Blocks) == 0 || v.Pkg == nil) {
+				v = o
+			}
 			return calleeOfObj(obj, v)
 		}
 		return Callee{Name: "$closure", Fn: v}
@@ -1823,9 +1827,31 @@ func lockSetsOf(f *ssa.Function) *LockSets {
 // helperPerforms: h performs the action (direct, evaluated on h's own instructions) on every path
 // to a return (mode "all"), or on every path to a return whose single bool result can be true
 // (mode "true").
-func helperPerforms(h *ssa.Function, direct func(ssa.Instruction) bool, mode string) bool {
+var helperPerformsDepth = 0
+
+func helperPerforms(h *ssa.Function, direct0 func(ssa.Instruction) bool, mode string) bool {
 	if h == nil || len(h.Blocks) == 0 {
 		return false
+	}
+	// the action may itself be delegated once more (`rejectChallenge` -> `recordFailure` -> the call)
+	direct := direct0
+	if helperPerformsDepth < 2 {
+		direct = func(in ssa.Instruction) bool {
+			if direct0(in) {
+				return true
+			}
+			c, ok := in.(*ssa.Call)
+			if !ok {
+				return false
+			}
+			g := c.Common().StaticCallee()
+			if g == nil || g == h || g.Pkg != h.Pkg || len(g.Blocks) == 0 {
+				return false
+			}
+			helperPerformsDepth++
+			defer func() { helperPerformsDepth-- }()
+			return helperPerforms(g, direct0, "all")
+		}
 	}
 	rets := Returns(h)
 	n := 0
